@@ -551,7 +551,15 @@ def rule_borrow_witness(ctx):
     witness.rule(ctx, ("C06", "C11ItemOutlivesMatcher"), "a reader could observe a snapshot (or an item borrowed from it) while a tick / restart mutates or drops it")
 
 
+def rule_snapshot_fields(ctx):
+    """`each match's score is the snapshot pattern's score`: matches, item count, pattern and stream of a snapshot come
+    from one run -- Snapshot::update copies every field from the worker on every path (shared with C12 / C19)."""
+    from props.c12 import rule_snapshot_fields as r
+    r(ctx)
+
+
 def rules(ctx):
+    ctx.run_rule("C06.snapshot-fields", rule_snapshot_fields)
     ctx.run_rule("C06.unchecked-feed", rule_unchecked_feed)
     ctx.run_rule("C06.inflight-order", rule_inflight_order)
     ctx.run_rule("C06.placeholders", rule_placeholders)
